@@ -45,8 +45,8 @@ func (c *Cache) VerifC17GetValue(h VerifC17Handle, loader Loader) ([]byte, error
 
 // VerifC17Linked reports whether the handle's item is consistently linked: either it is not in the LRU
 // list and says so (index == -1, or never inserted: no timer), or accessList[index] is the item itself.
-// An item with a timer whose index points elsewhere is removed from the wrong position (or out of range)
-// when its timer fires.
+// An item with an ARMED timer whose index points elsewhere is removed from the wrong position (or out of
+// range) when its timer fires; ok is false exactly in that case.
 func (c *Cache) VerifC17Linked(h VerifC17Handle) (ok bool, index int, lruLen int, hasTimer bool) {
 	c.m.Lock()
 	defer c.m.Unlock()
@@ -56,5 +56,10 @@ func (c *Cache) VerifC17Linked(h VerifC17Handle) (ok bool, index int, lruLen int
 		return true, i.index, len(c.accessList), hasTimer
 	}
 	ok = i.index >= 0 && i.index < len(c.accessList) && c.accessList[i.index] == i
+	if !ok {
+		// Dangerous only if the timer is really armed. Stop() reports that; stopping it is harmless here because
+		// an armed timer on an unlinked item ends the explored sequence anyway, and an unarmed one is unchanged.
+		ok = !i.timer.Stop()
+	}
 	return ok, i.index, len(c.accessList), hasTimer
 }
